@@ -167,6 +167,7 @@ def run(ctx):
     # dictionary parser on DAG-shaped and malformed dictionaries: calls of the edge parser per distinct cell
     n_dict = 0
     for kind, n in [("shared-valid", 6), ("shared-valid", 12), ("shared-valid", 20), ("shared-valid", 60),
+                    ("shared-pruned", 12), ("shared-pruned", 60),
                     ("label-longer-than-key", 12), ("label-longer-than-key", 24), ("label-longer-than-key", 60),
                     ("aug-label-longer-than-key", 24), ("label-longer-than-key-long-forks", 24),
                     ("aug-label-longer-than-key-long-forks", 40)]:
@@ -176,6 +177,34 @@ def run(ctx):
         if r != "ok":
             ctx.fail("dict-parser-work:" + kind, r, {"dict": kind, "n": n})
     ctx.extra["adversarial_dictionaries"] = n_dict
+
+    # dictionary parser, cost correspondence: the model's instrumented parser (Model/Cost.v parse_edge_c; theorems
+    # C19_dict_*) and the implementation's number of calls of parse.py `parse` on the same dictionaries
+    import hm
+    vcases = []
+    for _ in range(ctx.n(150, 1500)):
+        n = rng.choice([1, 2, 3, 4, 5, 8, 16, 40, 100, 300])
+        cnt = rng.choice([1, 2, 3, 4, 8, 20, 40])
+        ks = hm.rand_keyset(rng, n, cnt, rng.choice(["dense", "cluster", "runs", "uniform"]))
+        d = {k: (cells.rand_bits(rng, rng.choice([0, 5, 8])), []) for k in ks}
+        dag = []
+        hm.build_any_tree(rng, sorted(d), d, n, dag, canonical=rng.random() < 0.5, prune=rng.choice([0, 0, 0.2, 0.5]))
+        vcases.append((n, dag))
+    for n in range(1, 10):                                    # shared-children chains: n+1 cells, 2^n paths
+        for bottom in ("leaf", "pruned"):
+            dag = [(-1, "00" + "1", [])] if bottom == "leaf" else [cells.pruned_node(1, [b"\x11" * 32], [0])]
+            for _ in range(n):
+                dag.append((-1, "00", [len(dag) - 1, len(dag) - 1]))
+            vcases.append((n, dag))
+    impl, model = ctx.correspond("dict-visits", vcases, py_dict_visits, lambda c: f"hm_visits {c[0]} {cells.dag_line(c[1])}",
+                                 lambda c: len(c[1]) > 1, post=lambda c, m: " ".join(m.split()[:3]) if m.startswith("ok") else m)
+    # the proved relation (C19_dict_visits_exact / _depth) re-read on what the implementation did
+    for c, a in zip(vcases, impl):
+        if a.startswith("ok"):
+            k, v = int(a.split()[1]), int(a.split()[2])
+            if v + 1 > 2 ** (c[0] + 1) or (v + 1) % 2:
+                ctx.fail("dict-parser-visits-not-a-binary-walk", f"Hashmap {c[0]}: {k} entries, {v} edge visits", {"dictv": [c[0], c[1]]})
+    ctx.extra["dict_visit_cases"] = len(vcases)
 
     # TL parser: adversarial counts / length prefixes / truncations
     n_tl = 0
@@ -188,6 +217,27 @@ def run(ctx):
     ctx.extra["adversarial_tl_inputs"] = n_tl
 
 
+def py_dict_visits(case):
+    """(n, dag): 'ok <entries> <calls of parse>' for parse_hashmap on the root cell."""
+    from pytoniq_core.boc.hashmap import parse as P
+    n, dag = case
+    root = cells.build_py(dag)[-1]
+    calls = [0]
+    orig = P.parse
+
+    def counted(*a, **k):
+        calls[0] += 1
+        if calls[0] > 100000:
+            raise BudgetExceeded()
+        return orig(*a, **k)
+    P.parse = counted
+    try:
+        r = P.parse_hashmap(root.begin_parse(), n)
+    finally:
+        P.parse = orig
+    return f"ok {len(r)} {calls[0]}"
+
+
 def dict_case(kind, n):
     """a chain of n+1 distinct cells in which both references of every fork are the SAME child.
     shared-valid: a spec-valid Hashmap n holding all 2^n keys (every label empty);
@@ -196,13 +246,16 @@ def dict_case(kind, n):
     from pytoniq_core.boc.builder import Builder
     from pytoniq_core.boc.hashmap import parse as P
     cur = Builder().store_bits("00").store_uint(7, 8).end_cell()
-    if kind != "shared-valid":
+    if kind == "shared-pruned":
+        # a spec-valid Hashmap n whose shared chain ends in a pruned branch: 2^n paths, nothing to return
+        cur = cells.build_py([cells.pruned_node(1, [b"\x11" * 32], [0])])[-1]
+    elif kind != "shared-valid":
         # the chain ends in a pruned branch: the parser skips it silently, so nothing stops the walk early
         cur = cells.build_py([cells.pruned_node(1, [b"\x11" * 32], [0])])[-1]
     for _ in range(n):
         cur = Builder().store_bits("00").store_ref(cur).store_ref(cur).end_cell()
     key_len = n
-    if kind != "shared-valid":
+    if kind not in ("shared-valid", "shared-pruned"):
         if kind.endswith("long-forks"):
             # every fork of the chain carries an empty hml_long label whose length field has the width the parser would
             # use at that (negative) remaining key length, so that no later label stops the walk either
@@ -248,7 +301,7 @@ def dict_case(kind, n):
     dt = time.time() - t0
     if cut:
         return f"{kind}: a dictionary of {cells_n} distinct cells made the parser visit more than {budget} edges (cut off after {dt:.2f}s)"
-    if kind != "shared-valid" and out != "raised":
+    if kind not in ("shared-valid", "shared-pruned") and out != "raised":
         return f"{kind}: a label longer than the remaining key was not refused (result: {str(out)[:40]})"
     return "ok"
 
@@ -354,6 +407,12 @@ def replay(ctx, obj):
     if "dict" in c:
         r = core.call_impl(lambda _: dict_case(c["dict"], c["n"]), None, timeout_s=60)
         return None if r == "ok" else r
+    if "dictv" in c:
+        n, dag = c["dictv"][0], [(t, b, list(r)) for t, b, r in c["dictv"][1]]
+        a = core.call_impl(py_dict_visits, (n, dag))
+        if a.startswith("ok") and (int(a.split()[2]) + 1 > 2 ** (n + 1) or (int(a.split()[2]) + 1) % 2):
+            return "edge visits are not those of a binary walk: " + a
+        return None
     if "tl" in c:
         r = core.call_impl(lambda _: tl_case(bytes.fromhex(c["tl"])), None, timeout_s=60)
         return None if r == "ok" else r
